@@ -42,8 +42,13 @@ Theorem C08_fragment_present : forall tbl names unp mix,
 Proof. exact fragment_present_total. Qed.
 Print Assumptions C08_fragment_present.
 
-(* EVERY fragment spread directly in a selection set, defined on exactly the type the set is evaluated
-   for (never a union) and free of inline fragments, is resolved as a base of the class generated for
+(* Reading of the property's premise (recorded in notes/C08.md): "directly spreads a named fragment" means an
+   UNCONDITIONAL spread - SSpread fn false, the selection set of a class never lies under a conditional
+   container.  A spread under @skip/@include cannot yield an instance: the fragment's fields may be absent from
+   a conformant response, so a class with those fields required cannot validate it (C01); since /repo e47d9e8
+   such a spread is unpacked (C08_conditional_not_base).
+   EVERY fragment spread directly and unconditionally in a selection set, defined on exactly the type the set is
+   evaluated for (never a union) and free of inline fragments, is resolved as a base of the class generated for
    that set; after fix 959c464 its class is either listed as a base or inherited through a listed base
    along the emitted class hierarchy (rgraph g: every fragment class lists its reduced bases) - so the
    object is an instance of it.  g = base graph of the document, acyclic (fragment cycles are invalid). *)
@@ -51,12 +56,25 @@ Theorem C08_mixin_instance : forall fuel sch frags g snake cn tn ss extra s cs s
   acyclic_g g ->
   ptd fuel sch frags g snake cn tn ss extra s = Some (cs, s') -> mem cn (st_public s) = false ->
   exists c rest, cs = c :: rest /\ c_name c = cn /\ c_type c = tn /\
-    forall fn fd, In (SSpread fn) ss -> find_frag fn frags = Some fd ->
+    forall fn fd, In (SSpread fn false) ss -> find_frag fn frags = Some fd ->
       is_union sch (fr_on fd) = false -> fr_on fd = tn -> existsb is_inline (fr_sel fd) = false ->
       In fn (c_frags c) /\
       exists b, In b (c_bfrags c) /\ In (pascal_s b) (c_bases c) /\ reachable (rgraph g) b fn.
 Proof. exact mixin_instance_lemma. Qed.
 Print Assumptions C08_mixin_instance.
+
+(* a selection set that reaches fragments only through conditional spreads / conditional inline fragments
+   gets no fragment base class; below a conditional container nothing is a base (any depth) *)
+Theorem C08_conditional_not_base : forall sch frags fuel ss root unp fields mix unp',
+  forallb (fun s => match s with SSpread _ c => c | SInline _ c _ => c | SField _ _ _ _ => true end) ss = true ->
+  resolve fuel sch frags false ss root unp = Some (fields, mix, unp') -> mix = [].
+Proof. exact conditional_only_no_mixin. Qed.
+Print Assumptions C08_conditional_not_base.
+
+Theorem C08_under_condition_not_base : forall sch frags fuel ss root unp fields mix unp',
+  resolve fuel sch frags true ss root unp = Some (fields, mix, unp') -> mix = [].
+Proof. exact resolve_under_no_mixin. Qed.
+Print Assumptions C08_under_condition_not_base.
 
 (* the listed fragment bases never contain a fragment that another fragment of the resolved set - in
    particular another listed base, earlier or later - inherits: `class X(A, B)` with B a subclass of A
@@ -111,14 +129,14 @@ Definition sch_ex : aschema := {|
   s_fields := [("Query", [("animal", "Animal"); ("dog", "Dog")]);
                ("Animal", [("name", "String")]); ("Dog", [("name", "String"); ("bark", "String")])] |}.
 Definition frags_ex : list fragdef :=
-  [ {| fr_name := "AF"; fr_on := "Animal"; fr_mixins := [("mix", "Extra")]; fr_sel := [SSpread "Base"] |};
+  [ {| fr_name := "AF"; fr_on := "Animal"; fr_mixins := [("mix", "Extra")]; fr_sel := [SSpread "Base" false] |};
     {| fr_name := "Base"; fr_on := "Animal"; fr_mixins := []; fr_sel := [SField None "name" [] []] |};
-    {| fr_name := "Only"; fr_on := "Dog"; fr_mixins := []; fr_sel := [SInline "Dog" [SField None "bark" [] []]] |} ].
+    {| fr_name := "Only"; fr_on := "Dog"; fr_mixins := []; fr_sel := [SInline "Dog" false [SField None "bark" [] []]] |} ].
 Definition ops_ex : list opdef :=
   [ {| o_name := "One"; o_root := "Query"; o_mixins := [];
-       o_sel := [SField None "animal" [] [SSpread "AF"]] |};
+       o_sel := [SField None "animal" [] [SSpread "AF" false]] |};
     {| o_name := "Two"; o_root := "Query"; o_mixins := [];
-       o_sel := [SField None "dog" [("m2", "DogMixin")] [SSpread "AF"; SSpread "Only"]] |} ].
+       o_sel := [SField None "dog" [("m2", "DogMixin")] [SSpread "AF" false; SSpread "Only" false]] |} ].
 
 Definition skipme := 0.
 (* Base is unpacked by Two and spread by no operation, so package.py excludes it; the worklist of
@@ -146,10 +164,10 @@ Definition sch_mro : aschema := {|
   s_fields := [("Query", [("dog", "Dog")]); ("Dog", [("a", "Int"); ("b", "Int")])] |}.
 Definition frags_mro : list fragdef :=
   [ {| fr_name := "A"; fr_on := "Dog"; fr_mixins := []; fr_sel := [SField None "a" [] []] |};
-    {| fr_name := "B"; fr_on := "Dog"; fr_mixins := []; fr_sel := [SField None "b" [] []; SSpread "A"] |} ].
+    {| fr_name := "B"; fr_on := "Dog"; fr_mixins := []; fr_sel := [SField None "b" [] []; SSpread "A" false] |} ].
 Definition ops_mro : list opdef :=
   [ {| o_name := "Q"; o_root := "Query"; o_mixins := [];
-       o_sel := [SField None "dog" [] [SSpread "B"; SSpread "A"]] |} ].
+       o_sel := [SField None "dog" [] [SSpread "B" false; SSpread "A" false]] |} ].
 
 Example C08_mro_regression :
   match generate_package 100 sch_mro frags_mro ops_mro true id_oracle with
@@ -165,4 +183,23 @@ Proof. vm_compute. repeat split. Qed.
 (* the hypotheses of C08_mixin_instance are met by that document: its base graph is acyclic *)
 Example C08_mro_graph : top_graph 100 sch_mro frags_mro = Some [("A", []); ("B", ["A"])] /\
   reduced [("A", []); ("B", ["A"])] ["B"; "A"] = ["B"] /\ inherited [("A", []); ("B", ["A"])] ["B"; "A"] = ["A"].
+Proof. vm_compute. repeat split. Qed.
+
+(* conditional spreads: A is spread under @include at a Dog position -> unpacked, QDog keeps BaseModel; the
+   unconditional spread of B next to it is still a base (and brings A in through inheritance); no operation
+   uses A as a base, so package.py excludes it and the worklist re-adds it as B's mixin *)
+Definition ops_cond : list opdef :=
+  [ {| o_name := "Q"; o_root := "Query"; o_mixins := [];
+       o_sel := [SField None "dog" [] [SSpread "A" true]] |};
+    {| o_name := "R"; o_root := "Query"; o_mixins := [];
+       o_sel := [SField None "dog" [] [SInline "Dog" true [SSpread "B" false]; SSpread "B" false; SSpread "A" true]] |} ].
+
+Example C08_conditional_example :
+  match generate_package 100 sch_mro frags_mro ops_cond true id_oracle with
+  | Some p => map (fun r => map (fun c => (c_name c, c_bases c, c_direct c)) (snd (fst r))) (pk_ops p) =
+                [[("Q", ["BaseModel"], []); ("QDog", ["BaseModel"], [])];
+                 [("R", ["BaseModel"], []); ("RDog", ["B"], ["B"])]] /\
+              pk_exclude p = ["A"] /\ option_map fm_order (pk_module p) = Some ["A"; "B"]
+  | None => False
+  end.
 Proof. vm_compute. repeat split. Qed.
